@@ -124,7 +124,7 @@ var kernelList = []kernelSpec{
 // already passed through PrepareBetObject (model: wager_prepare, tied by the correspondence runs)
 var assumeOK = []kernelSpec{{"x/mint/types", "", "validateMintDenom"}, {"x/bet/types", "MsgWager", "ValidateBasic"}}
 
-var extraStructs = []kernelSpec{{"x/ovm/types", "ProposalVotePayload", ""}, {"x/ovm/types", "MsgVotePubkeysChangeRequest", ""}, {"x/bet/types", "Constraints", ""}, {"x/ovm/types", "PubkeysChangeProposalPayload", ""}, {"x/mint/types", "Phase", ""}, {"x/ovm/types", "Vote", ""}, {"x/market/types", "Odds", ""}}
+var extraStructs = []kernelSpec{{"x/ovm/types", "ProposalVotePayload", ""}, {"x/ovm/types", "MsgVotePubkeysChangeRequest", ""}, {"x/bet/types", "Constraints", ""}, {"x/ovm/types", "PubkeysChangeProposalPayload", ""}, {"x/mint/types", "Phase", ""}, {"x/ovm/types", "Vote", ""}, {"x/market/types", "Odds", ""}, {"x/bet/types", "BetFulfillment", ""}}
 
 // A stateful kernel: a function that reads and writes module state through a keeper.  The state it touches is a record (emitted as
 // S_<name>) and every keeper / context method it may call is mapped to an operation on that record; anything else fails the translation.
@@ -137,16 +137,18 @@ type stateOp struct {
 }
 type stateField struct{ name, typ string } // typ: a Gallina type ("Z", "G_Minter", ...)
 type statefulSpec struct {
-	recv      string // "" for a function; "Keeper" for a keeper method
-	pkg, name string // function
-	state     string // Gallina record name suffix
-	fields    []stateField
-	keeperPkg string             // package path (relative) of the Keeper type
-	ops       map[string]stateOp // keeper method -> operation
-	ctxTime   string             // the field holding the block time (sdk.Context used as a value means this field)
-	keeperTyp string             // name of the keeper-side receiver type whose methods are the operations ("Keeper" by default)
-	returns   string             // "" | "value": the function returns a value besides (or instead of) an error; the translation pairs it with the state
-	ctxOps    map[string]stateOp // sdk.Context method -> operation
+	recv       string // "" for a function; "Keeper" for a keeper method
+	pkg, name  string // function
+	state      string // Gallina record name suffix
+	fields     []stateField
+	keeperPkg  string             // package path (relative) of the Keeper type
+	ops        map[string]stateOp // keeper method -> operation
+	ctxTime    string             // the field holding the block time (sdk.Context used as a value means this field)
+	keeperTyp  string             // name of the keeper-side receiver type whose methods are the operations ("Keeper" by default)
+	returns    string             // "" | "value": the function returns a value besides (or instead of) an error; the translation pairs it with the state
+	ctxOps     map[string]stateOp // sdk.Context method -> operation
+	outParam   string             // a pointer parameter the function assigns through: its final value is returned next to the state
+	addrParams bool               // sdk.AccAddress parameters are kept (as account ids) instead of being matched by name
 }
 
 var mktOps = map[string]stateOp{
@@ -196,6 +198,7 @@ var settleOps = map[string]stateOp{
 	"SetOrderBookParticipation":    {kind: "upsert", field: []string{"Parts", "Index"}},
 	"GetParticipationsOfOrderBook": {kind: "getok", field: []string{"Parts"}, args: []string{"orderBookUID"}},
 	"settleParticipation":          {kind: "callerr", field: []string{"K_settle_settleParticipation"}},
+	"GetOrderBookParticipation":    {kind: "findk", field: []string{"Parts", "Index"}, args: []string{"orderBookUID"}},
 }
 
 // the vote handler: the ticket verifies under exactly one key (TicketKey, when TicketOK) and then carries VotePayload
@@ -220,6 +223,19 @@ var statefulList = []statefulSpec{{
 	fields: []stateField{{"Effects", "list (Z * Z * Z * Z)"}, {"Parts", "list G_OrderBookParticipation"}},
 }, {
 	recv: "Keeper", pkg: "x/orderbook/keeper", name: "batchSettlementOfParticipation", state: "settle", keeperPkg: "x/orderbook/keeper", ops: settleOps,
+}, {
+	// bet_settle.go: what a settled bet pays (the parts of a won bet out of the pool, stake and fee of a refunded one) and what it books on
+	// the participations that backed it
+	recv: "Keeper", pkg: "x/orderbook/keeper", name: "RefundBettor", state: "settle", keeperPkg: "x/orderbook/keeper", ops: settleOps, addrParams: true,
+}, {
+	recv: "Keeper", pkg: "x/orderbook/keeper", name: "BettorWins", state: "settle", keeperPkg: "x/orderbook/keeper", ops: settleOps, addrParams: true,
+}, {
+	recv: "Keeper", pkg: "x/orderbook/keeper", name: "BettorLoses", state: "settle", keeperPkg: "x/orderbook/keeper", ops: settleOps,
+}, {
+	// x/bet/keeper/settle.go: the side of a resolved bet decides which of the two is called
+	recv: "Keeper", pkg: "x/bet/keeper", name: "settleResolved", state: "settle", keeperPkg: "x/bet/keeper", outParam: "bet",
+	ops: map[string]stateOp{"orderbookKeeper.BettorLoses": {kind: "callerr", field: []string{"K_settle_BettorLoses"}},
+		"orderbookKeeper.BettorWins": {kind: "callerr", field: []string{"K_settle_BettorWins"}}},
 }, {
 	recv: "Keeper", pkg: "x/subaccount/keeper", name: "TopUp", state: "subtop", keeperPkg: "x/subaccount/keeper", ops: subtopOps, ctxTime: "Now",
 	fields: []stateField{{"Exists", "bool"}, {"Summary", "G_AccountSummary"}, {"SummaryExists", "bool"}, {"Locks", "list G_LockedBalance"},
@@ -548,10 +564,8 @@ func (c *fctx) plainArgs(e *ast.CallExpr) []string {
 		if isCtx(c.info.TypeOf(a)) {
 			continue
 		}
-		if isString(c.info.TypeOf(a)) {
-			if tv, ok := c.info.Types[a]; (ok && tv.Value != nil) || c.freeText(a) {
-				continue
-			}
+		if isString(c.info.TypeOf(a)) { // a stateful kernel has no string parameters (ids select the state it is given, the rest is free text)
+			continue
 		}
 		as = append(as, c.expr(a))
 	}
@@ -1200,9 +1214,17 @@ func (c *fctx) finish() string {
 	case c.mutating && c.results == "none":
 		return ident(c.recvName)
 	case c.mutating && c.results == "err":
-		return fmt.Sprintf("Some %s", ident(c.recvName))
+		return fmt.Sprintf("Some %s", c.retState())
 	}
 	return c.fail("control reaches the end of a function that must return a value")
+}
+
+// retState: what a mutating function hands back: its receiver (the state of a stateful kernel), paired with the out parameter if it has one
+func (c *fctx) retState() string {
+	if c.state != nil && c.state.outParam != "" {
+		return fmt.Sprintf("(%s, %s)", ident(c.recvName), ident(c.state.outParam))
+	}
+	return ident(c.recvName)
 }
 
 func isNilIdent(e ast.Expr) bool {
@@ -1242,7 +1264,7 @@ func (c *fctx) ret(s *ast.ReturnStmt) string {
 	case "err":
 		if len(s.Results) == 1 && isNilIdent(s.Results[0]) {
 			if c.mutating {
-				return fmt.Sprintf("Some %s", ident(c.recvName))
+				return fmt.Sprintf("Some %s", c.retState())
 			}
 			return "true"
 		}
@@ -2354,7 +2376,13 @@ func analyseKernels(w *world) string {
 				c.dropVars[pv.Name()] = true
 				continue
 			}
-			if gt, _ := k.galType(pv.Type()); gt != "" && !isAddr(pv.Type()) {
+			if isAddr(pv.Type()) {
+				if c.state != nil && c.state.addrParams {
+					params = append(params, fmt.Sprintf("(%s : Z)", ident(pv.Name())))
+				}
+				continue
+			}
+			if gt, _ := k.galType(pv.Type()); gt != "" {
 				params = append(params, fmt.Sprintf("(%s : %s)", ident(pv.Name()), gt))
 			}
 		}
